@@ -477,9 +477,10 @@ func pingHandover(c *run.Ctx, variant string) {
 		return sim.PointAction{}
 	}
 	w.WritePlan = func(cn *sim.Conn, p []byte) sim.WriteDecision {
-		if failPing && len(p) == 2 && p[0] == 0xc0 {
+		// (the client may hand the two bytes over one by one)
+		if failPing && len(p) <= 2 && len(p) != 0 && p[0] == 0xc0 {
 			failPing = false
-			return sim.WriteDecision{Accept: 1, Then: "error"}
+			return sim.WriteDecision{Accept: len(p) - 1, Then: "error"}
 		}
 		return sim.WriteDecision{Accept: -1}
 	}
@@ -508,7 +509,16 @@ func pingHandover(c *run.Ctx, variant string) {
 		close(quit)
 	}
 	if !w.WaitGateWaiting("first", 1, 2*time.Second) {
-		// the window was not entered in this variant (legal: the other select branch won)
+		// the window was not entered in this variant (legal: the other select branch won);
+		// a PINGREQ that did go out gets its answer
+		w.Mu.Lock()
+		holding = false
+		w.Mu.Unlock()
+		for _, h := range w.Broker.TakeHeld() {
+			if h.Conn.Alive() {
+				h.Conn.Send(h.Bytes, "PINGRESP")
+			}
+		}
 		if !w.WaitUntil(sim.StepTimeout, func() bool { return first.Returned() }) {
 			c.Violate("request-never-returns", "first Ping never returned", detail())
 			c.Spoiled()
